@@ -295,6 +295,10 @@ class HyperparameterRangeFiniteRange(HyperparameterRange):
             upper_bound=size - 1,
             scaling=LinearScaling(),
         )
+        # Only needed if ``cast_int`` (see :meth:`_map_to_int`)
+        self._values = (
+            [self._map_from_int(x) for x in range(size)] if cast_int else None
+        )
 
     @property
     def scaling(self) -> Scaling:
@@ -311,6 +315,10 @@ class HyperparameterRangeFiniteRange(HyperparameterRange):
     def _map_to_int(self, y: Union[float, int]) -> int:
         if self._step_internal == 0:
             return 0
+        elif self.cast_int and y in self._values:
+            # Rounding to int can move a value onto the mid-point between two
+            # grid points (in the internal domain): members map to themselves
+            return self._values.index(y)
         else:
             y_int = np.clip(
                 self._scaling.to_internal(y), self._lower_internal, self._upper_internal
